@@ -32,7 +32,10 @@ TO_MANY = {
     "author": {"posts": "post", "comments": "comment"},
     "country": {"authors": "author"},
     "tag": {"posts": "post"},
-    "comment": {},
+    # Comment.replies is a collection of the SAME entity (key comment.parent_id); the to-one
+    # side (parent) is deliberately not navigable from filters: same table twice without
+    # aliases is the listed two-paths mechanism
+    "comment": {"replies": "comment"},
     "region": {"countries": "country"},
     "profile": {},
 }
@@ -85,7 +88,8 @@ def canonical_instance():
         for j, v in enumerate(pat):
             cid += 1
             inst["comment"].append({"id": cid, "text": STRS[(i + j) % len(STRS)], "score": v,
-                                    "post_id": pid, "author_id": [1, 2, None, 5][(i + j) % 4]})
+                                    "post_id": pid, "author_id": [1, 2, None, 5][(i + j) % 4],
+                                    "parent_id": (cid - 1 if j and (i + j) % 3 else None)})
         used = set()
         for j, v in enumerate(pat):
             tg = tag_by_weight[v][j % 2] if tag_by_weight[v][j % 2] not in used else tag_by_weight[v][(j + 1) % 2]
@@ -95,7 +99,8 @@ def canonical_instance():
             inst["post_tags"].append((pid, tg))
     # a comment without post, a post rated 5 by author 2 with no comments already present
     cid += 1
-    inst["comment"].append({"id": cid, "text": "x", "score": 5, "post_id": None, "author_id": None})
+    inst["comment"].append({"id": cid, "text": "x", "score": 5, "post_id": None, "author_id": None,
+                            "parent_id": 1})
     return inst
 
 
@@ -129,7 +134,8 @@ def random_instance(rng):
             cid += 1
             inst["comment"].append({"id": cid, "text": rng.choice(STRS), "score": rng.choice(INTS),
                                     "post_id": i + 1,
-                                    "author_id": rng.choice([None] + list(range(1, na + 1)))})
+                                    "author_id": rng.choice([None] + list(range(1, na + 1))),
+                                    "parent_id": rng.choice([None, None] + list(range(1, cid))) if cid > 1 else None})
         if nt:
             for tg in rng.sample(range(1, nt + 1), rng.randint(0, min(3, nt))):
                 inst["post_tags"].append((i + 1, tg))
@@ -174,6 +180,8 @@ class Graph:
     def to_many(self, entity, row, rel):
         target = TO_MANY[entity][rel]
         inst = self.inst
+        if (entity, rel) == ("comment", "replies"):
+            return target, [c for c in inst["comment"] if c.get("parent_id") == row["id"]]
         if (entity, rel) == ("post", "comments"):
             return target, [c for c in inst["comment"] if c["post_id"] == row["id"]]
         if (entity, rel) == ("post", "tags"):
